@@ -48,6 +48,31 @@ use sourmash::sketch::Sketch;
 use sourmash::Error;
 use verif_harness::*;
 
+/// without the `whitebox` feature: the requests that read private intermediates are not answerable
+#[cfg(not(feature = "whitebox"))]
+#[allow(dead_code)]
+mod real_src {
+    pub fn x_r1_to_q(_k: f64, _r1: f64) -> f64 {
+        unreachable!()
+    }
+    pub fn x_exp_n_mutated(_l: f64, _k: f64, _r1: f64) -> f64 {
+        unreachable!()
+    }
+    pub fn x_var_n_mutated(_l: f64, _k: f64, _r1: f64) -> Result<f64, crate::Error> {
+        unreachable!()
+    }
+    pub fn x_exp_n_mutated_squared(_l: f64, _k: f64, _r1: f64) -> Result<f64, crate::Error> {
+        unreachable!()
+    }
+    pub fn x_pnc(_ani: f64, _k: f64, _f_scaled: f64, _n: f64) -> Result<f64, crate::Error> {
+        unreachable!()
+    }
+    pub fn x_f12(_c: f64, _k: f64, _scaled: u64, _n: u64, _conf: Option<f64>, _z: f64, _pest: f64) -> (f64, f64, f64) {
+        unreachable!()
+    }
+}
+
+#[cfg(feature = "whitebox")]
 #[allow(dead_code, unused_imports, clippy::all)]
 mod real_src {
     use std::cell::Cell;
@@ -234,6 +259,11 @@ fn opt_bits(x: Option<f64>) -> String {
 
 fn step(_: &mut (), ws: &[&str]) -> String {
     let u = |i: usize| -> u64 { ws[i].parse().unwrap() };
+    if cfg!(not(feature = "whitebox"))
+        && (ws[0] == "mid" || (matches!(ws[0], "ref" | "pin") && ws.len() > 1 && matches!(ws[1], "varn" | "q" | "pnc")))
+    {
+        return "NA".into();
+    }
     match ws[0] {
         "case" => "ok".into(),
         "point" => fb(ani_from_containment(pf(ws[1]), u(2) as f64)),
